@@ -1,9 +1,15 @@
 package e3
 
 import (
+	"bufio"
+	"encoding/json"
 	"fmt"
+	"os"
+	"os/exec"
+	"path/filepath"
 	"strings"
 	"testing"
+	"time"
 )
 
 // TestC14 — the compatibility matrix: a real Serve child paired with a real Client.
@@ -191,6 +197,47 @@ func TestC14(t *testing.T) {
 		if r.PluginAlive {
 			bad("L", "plugin process still alive at the end of the cell")
 		}
+	}
+	// ---- a hand-written host (this test) that exports its "multiplexing" setting as a boolean in any spelling: when the value
+	// does not mean true, host and plugin agree on a plain gRPC connection, and it works (health check over plain gRPC)
+	vp := filepath.Join(base, "vplugin")
+	for _, mv := range []string{"\x00", "", "false", "0", "f", "FALSE", "junk"} {
+		desc := fmt.Sprintf("hand-written host, grpc plugin, PLUGIN_MULTIPLEX_GRPC=%q", strings.ReplaceAll(mv, "\x00", "<unset>"))
+		dir := filepath.Join(base, fmt.Sprintf("c14raw-%d", out.Evaluations))
+		os.MkdirAll(dir, 0o755)
+		pc, _ := json.Marshal(PluginConf{CookieKey: cookieKey, CookieValue: cookieVal, Legacy: 1, LegacyProto: "grpc", GRPCServer: true, TLS: "none"})
+		cmd := exec.Command(vp)
+		cmd.Env = []string{"VP_CONF=" + string(pc), "TMPDIR=" + dir, "PLUGIN_UNIX_SOCKET_DIR=" + dir, cookieKey + "=" + cookieVal, "PLUGIN_PROTOCOL_VERSIONS=1"}
+		if mv != "\x00" {
+			cmd.Env = append(cmd.Env, "PLUGIN_MULTIPLEX_GRPC="+mv)
+		}
+		stdout, _ := cmd.StdoutPipe()
+		out.Evaluations++
+		out.Distinct++
+		badRaw := func(f string, a ...any) {
+			out.Violations = append(out.Violations, enumViolation{Case: desc, Class: "S", Msg: fmt.Sprintf(f, a...) + " [" + desc + "]"})
+		}
+		if err := cmd.Start(); err != nil {
+			badRaw("cannot start the plugin: %v", err)
+			continue
+		}
+		lineCh := make(chan string, 1)
+		go func() { l, _ := bufio.NewReader(stdout).ReadString('\n'); lineCh <- l }()
+		var line string
+		select {
+		case line = <-lineCh:
+		case <-time.After(15 * time.Second):
+		}
+		f := strings.Split(strings.TrimSpace(line), "|")
+		if len(f) < 5 || f[2] != "unix" {
+			badRaw("no usable handshake line: %q", line)
+		} else if !intrude(f[3], "grpc", "plain") { // (the same probe as C12's plaintext peer: here it is the legitimate host)
+			badRaw("the plugin does not answer a plain gRPC health check at the address it announced (line %q)", strings.TrimSpace(line))
+		}
+		cmd.Process.Kill()
+		cmd.Wait()
+		os.RemoveAll(dir)
+		out.Outcomes["raw-host"]++
 	}
 	emit(out)
 }
